@@ -161,7 +161,7 @@ def check_parse_and_validate(ctx, oid="C06.2"):
                 cell = cells.Cell(atoms=atoms)
                 ev.assume_fn = cell
                 s = ev.run(fp)
-                kind, val = rules.decided_outcome(s)
+                kind, val = rules.strict_outcome(s)
                 ev.assume_fn = None
                 what = "%s string with %d separator(s)%s" % (cname, k, "" if hne else " and nothing before it")
                 if cname == "mixed-case" or k == 0 or not hne:
@@ -202,7 +202,7 @@ def check_parse_and_validate(ctx, oid="C06.2"):
         eva.assume_fn = cell
         s = eva.run(fa, {"hrp": hrp, "data": data, "constant": const})
         eva.assume_fn = None
-        return s, rules.decided_outcome(s), hrp, data
+        return s, rules.strict_outcome(s), hrp, data
 
     table = []
     for nh in (0, 1, 2, 83, 84):
@@ -258,7 +258,7 @@ def check_decode_segwit(ctx, oid="C06.2"):
             cell = cells.Cell(classes=classes)
             ev.assume_fn = cell
             s = ev.run(fi, use_defaults=True)
-            kind, val = rules.decided_outcome(s)
+            kind, val = rules.strict_outcome(s)
             ev.assume_fn = None
             n_cells += 1
             accept = nd >= 8 and v is not None and v <= 16
